@@ -3,6 +3,7 @@
 mod c01;
 mod c02;
 mod c04;
+mod c08;
 mod core;
 mod lc;
 mod lcgen;
@@ -17,6 +18,7 @@ fn prop_by_id(id: &str) -> Option<Box<dyn Prop>> {
         "C01" => Box::new(c01::C01),
         "C02" => Box::new(c02::C02),
         "C04" => Box::new(c04::C04),
+        "C08" => Box::new(c08::C08),
         "C05" => Box::new(lc::LcProp(lc::Which::C05)),
         "C06" => Box::new(lc::LcProp(lc::Which::C06)),
         "C07" => Box::new(lc::LcProp(lc::Which::C07)),
